@@ -151,8 +151,17 @@ func runPacer(t *simrt.Tape, keep bool) simrt.Outcome {
 		}
 		// the phase: the four named ones, any in [0, 2pi), and - the wave is periodic and the field is a plain float -
 		// negative ones and ones a few periods away
-		sp.StartAt = []float64{vegeta.MeanUp, vegeta.Peak, vegeta.MeanDown, vegeta.Trough, float64(t.Choose(6284)) / 1000,
-			-float64(1+t.Choose(6283)) / 1000, float64(t.Choose(62840))/1000 - 31.42}[t.Choose(7)]
+		sp.StartAt = []float64{vegeta.MeanUp, vegeta.Peak, vegeta.MeanDown, vegeta.Trough, -1}[t.Choose(5)]
+		if sp.StartAt == -1 {
+			switch t.Choose(3) {
+			case 0:
+				sp.StartAt = float64(t.Choose(6284)) / 1000
+			case 1:
+				sp.StartAt = -float64(1+t.Choose(6283)) / 1000
+			default:
+				sp.StartAt = float64(t.Choose(62840))/1000 - 31.42
+			}
+		}
 		p = sp
 		m, a := hitsPerNs(sp.Mean), hitsPerNs(sp.Amp)
 		sch = schedule{kind: "sine", lower: true, params: map[string]float64{"peak_rate_per_s": (m + math.Abs(a)) * 1e9, "mean_per_s": m * 1e9, "amp_over_mean": a / m, "period_ns": float64(sp.Period), "start_at": sp.StartAt}}
